@@ -36,7 +36,7 @@ type Config struct {
 // Stats counts what actually happened.
 type Stats struct {
 	Packets, Dropped, Duplicated, Delayed, PartitionDrops int
-	Streams, StreamsRefused, DeadDrops                     int
+	Streams, StreamsRefused, DeadDrops                    int
 }
 
 type Net struct {
